@@ -24,6 +24,11 @@ type Stats struct {
 	BoundDone   int  // largest bound whose exploration finished
 	Capped      bool // the execution cap was hit
 	MaxThreads  int
+	// Diverged counts choice prefixes that did not fit their execution even after being run again
+	// (only possible once threads park in the Go runtime - channel operations, select -, whose
+	// choices among several ready cases and wake-up timing this scheduler does not own); such a
+	// prefix is neither checked nor expanded, and the exploration is not exhaustive
+	Diverged int64
 }
 
 type Explorer struct {
@@ -76,8 +81,16 @@ func (e *Explorer) explore(prefix []int32, cost int, mapCost int, exact int) {
 		return
 	}
 	r := e.Run(prefix)
+	for tries := 0; r.Diverged && tries < 5; tries++ {
+		r = e.Run(prefix)
+	}
 	if Heartbeat != nil {
 		Heartbeat()
+	}
+	if r.Diverged {
+		e.Stats.Diverged++
+		e.Stats.Capped = true // reported as a capped (not exhaustive) case
+		return
 	}
 	if cost == exact {
 		e.Stats.Execs++
